@@ -27,7 +27,6 @@ import (
 	"net/netip"
 	"time"
 
-	"github.com/IrineSistiana/mosdns/v5/pkg/dnsutils"
 	"github.com/IrineSistiana/mosdns/v5/pkg/pool"
 	"go.uber.org/zap"
 )
@@ -83,7 +82,7 @@ func ServeTCP(l net.Listener, h Handler, opts TCPServerOpts) error {
 				} else {
 					c.SetReadDeadline(time.Now().Add(idleTimeout))
 				}
-				req, _, err := dnsutils.ReadMsgFromTCP(c)
+				req, err := readQueryFromStream(c)
 				if err != nil {
 					return // read err, close the connection
 				}
